@@ -288,6 +288,100 @@ class Ctx:
                            {"call": d[0], "c": d[1], "lean": d[2]}, found_input=False)
         return ok
 
+    def validate_compare_versions(self, n=6000):
+        """Tie + judge for `ts_parser__compare_versions` (translator item Parser/…, theorems of
+        C09/VersionOrder.lean).  (1) correspondence: the real C function (unity build) and the REGENERATED
+        Lean definition give the same verdict on random + boundary status pairs of the no-wrap domain
+        (ℕ product < 2^32).  (2) judge on the implementation alone, wrap domain included: the verdict
+        for (b, a) is the mirror of the verdict for (a, b) (`compare_versions_mirror_wrapping`), a
+        status compared with itself gives None, and Take… is returned only for a strictly cheaper
+        version.  A failing pair is a concrete replay (the two statuses)."""
+        import random
+        rnd = random.Random(self.seed * 7919 + 11)
+        cu = self.cunit("cunit")
+        drv = self.build_driver("tsv-gen")
+        if not cu or not os.path.exists(drv):
+            return False
+        costs = [0, 1, 2, 99, 100, 101, 109, 110, 111, 500, 1799, 1800, 1801, 1900, 3600, 3601, 65535, 2**31, 2**32 - 1]
+        counts = [0, 1, 2, 3, 16, 17, 18, 35, 36, 599, 600, 1799, 1800, 1801, 65536, 2**24, 2**32 - 2, 2**32 - 1]
+        precs = [1000000 + d for d in (-3, -1, 0, 1, 2, 7)]
+
+        def status(base=None):
+            if base is not None and rnd.random() < 0.5:
+                s = list(base)
+                k = rnd.randrange(4)
+                s[k] = [rnd.choice(costs), rnd.choice(counts), rnd.choice(precs), rnd.randrange(2)][k]
+                if k == 0 and rnd.random() < 0.7:
+                    s[0] = max(0, min(2**32 - 1, base[0] + rnd.choice([-1801, -1800, -901, -900, -101, -100, -1, 1, 100, 101, 900, 901, 1800, 1801])))
+                return s
+            c = rnd.choice(costs) if rnd.random() < 0.6 else rnd.randrange(0, 4000)
+            m = rnd.choice(counts) if rnd.random() < 0.6 else rnd.randrange(0, 40)
+            return [c, m, rnd.choice(precs), rnd.randrange(2)]
+        pairs = []
+        for _ in range(n):
+            a = status()
+            b = status(a)
+            pairs.append((a, b))
+        lines = ["const2"]
+        for a, b in pairs:
+            lines.append("compare_versions " + " ".join(map(str, a + b)))
+            lines.append("compare_versions " + " ".join(map(str, b + a)))
+            lines.append("compare_versions " + " ".join(map(str, a + a)))
+        inp = "\n".join(lines) + "\n"
+        rc1, out1 = sh([cu], input_text=inp, timeout=600)
+        rc2, out2 = sh([drv], input_text=inp, timeout=600)
+        o1, o2 = out1.strip().split("\n"), out2.strip().split("\n")
+        ok_run = rc1 == 0 and rc2 == 0 and len(o1) == len(lines) and len(o2) == len(lines)
+        self.oblige("run:compare_versions(C unit + tsv-gen)", ok_run, "rc=%d/%d lines=%d/%d/%d" % (rc1, rc2, len(lines), len(o1), len(o2)))
+        if not ok_run:
+            return False
+        compared = differ = judged = bad = 0
+        verdicts = {}
+        first_diff = None
+        if o1[0] != o2[0]:
+            differ += 1
+            first_diff = ("MAX_COST_DIFFERENCE", o1[0], o2[0])
+        for i, (a, b) in enumerate(pairs):
+            j = 1 + 3 * i
+            ab, ba, aa = o1[j], o1[j + 1], o1[j + 2]
+            verdicts[ab] = verdicts.get(ab, 0) + 1
+            nowrap = abs(a[0] - b[0]) * (1 + max(a[1], b[1])) < 2**32
+            if nowrap:
+                for k in range(3):
+                    compared += 1
+                    if o1[j + k] != o2[j + k]:
+                        differ += 1
+                        first_diff = first_diff or (lines[j + k], o1[j + k], o2[j + k])
+            judged += 1
+            why = None
+            if not (ab.isdigit() and ba.isdigit() and int(ab) + int(ba) == 4):
+                why = "verdict for (b,a) = %s is not the mirror of the verdict for (a,b) = %s" % (ba, ab)
+            elif aa != "2":
+                why = "a status compared with itself gives verdict %s, not None" % aa
+            elif ab == "0" and not a[0] < b[0]:
+                why = "TakeLeft although the left version is not strictly cheaper"
+            elif ab == "4" and not b[0] < a[0]:
+                why = "TakeRight although the right version is not strictly cheaper"
+            if why:
+                bad += 1
+                if bad <= 3:
+                    self.violation("judge", "ts_parser__compare_versions depends on the order of the two stack versions: " + why,
+                                   {"a": {"cost": a[0], "node_count": a[1], "dynamic_precedence": a[2] - 1000000, "is_in_error": a[3]},
+                                    "b": {"cost": b[0], "node_count": b[1], "dynamic_precedence": b[2] - 1000000, "is_in_error": b[3]},
+                                    "verdict_ab": ab, "verdict_ba": ba, "verdict_aa": aa,
+                                    "spec": {"kind": "compare_versions", "a": a, "b": b}},
+                                   fingerprint={"kind": "compare_versions", "why": why.split(" ")[0]})
+        self.oblige("corr:compare_versions(C function = regenerated Lean definition, no-wrap domain)", differ == 0,
+                    "first difference: %s" % (first_diff,) if first_diff else "%d calls equal" % compared)
+        if differ:
+            self.violation("corr", "regenerated Lean definition and C function disagree on `%s`: C=%s Lean=%s" % first_diff,
+                           {"call": first_diff[0], "c": first_diff[1], "lean": first_diff[2]}, found_input=False)
+        self.oblige("judge:compare_versions(mirror law, reflexivity, Take only for strictly cheaper)", bad == 0,
+                    "%d of %d pairs fail" % (bad, judged))
+        self.coverage["compare_versions"] = {"pairs": judged, "compared_no_wrap": compared, "differences": differ,
+                                             "judge_failures": bad, "verdict_distribution": verdicts}
+        return differ == 0 and bad == 0
+
     # ---------------------------------------------------------------- violations
     def violation(self, kind, what, payload, fingerprint=None, found_input=True):
         """kind: judge | corr | proof | tie.  fingerprint: dict matched against KNOWN_FINDINGS."""
